@@ -319,7 +319,7 @@ class Run:
                 line = f"KNOWN-FINDING: property={self.pid} {kf['what_fails']}"
                 if line not in known_lines: known_lines.append(line)
                 continue
-            key = (fam, what.split(":")[0])
+            key = (fam, re.sub(r"\d+", "N", what.split(":")[0]))     # one replay file per kind of failure
             if key in seen: continue
             seen.add(key)
             trace = self.scenario_text(tf, seed) if tf and os.path.exists(tf) else []
